@@ -226,6 +226,7 @@ def parse(command: Any, args: list[str], env: dict[str, str], file_cfg: dict[str
 
 
 _BASE: dict[str, list[str] | None] = {}
+_POS: dict[str, dict[str, int]] = {}
 
 
 def base_args(name: str, command: Any) -> list[str] | None:
@@ -257,6 +258,8 @@ def base_args(name: str, command: Any) -> list[str] | None:
                 val = _dummy(attr, fields.get(attr))
                 if val is None or (opt.startswith("-") and opt in args):
                     continue
+                if not opt.startswith("-"):
+                    _POS.setdefault(name, {})[attr] = len(args)  # where the positional's token sits in the base arguments
                 args = args + ([opt, val] if opt.startswith("-") else [val])
                 progressed = True
         elif "Exactly one of id or file is required" in err:
@@ -368,9 +371,16 @@ def check_cell(name: str, command: Any, cell: dict[str, Any], subset: tuple[bool
         else:
             trip = [values_for(kind, i, d) for i in order]
         if dd["positional"]:
-            # positional values replace the dummy supplied by the solver
-            return [], "positional"
-        if cli:
+            # the positional's token in the base arguments is replaced by the CLI value, or removed when the CLI gives none
+            idx = _POS.get(name, {}).get(attr)
+            if idx is None or idx >= len(base) or _BASE.get(name) is not base:
+                return [], "positional-unlocated"
+            args = list(base)
+            if cli:
+                args[idx] = trip[0][1]
+            else:
+                del args[idx]
+        elif cli:
             args += [long_opt, trip[0][1]]
         if env:
             envd[f"GALLIA_{attr.upper()}"] = trip[1][2]
